@@ -49,6 +49,7 @@ func GenWS(t *rapid.T, p Profile) WS {
 	}
 	w.Workers = rapid.SampledFrom(workers).Draw(t, "workers")
 	w.Algo = rapid.SampledFrom([]string{"xxh3", "sha256"}).Draw(t, "algo")
+	w.Spell = rapid.IntRange(0, 7).Draw(t, "spell")
 	n := rapid.IntRange(1, p.MaxTargets).Draw(t, "ntargets")
 	for i := 0; i < n; i++ {
 		tg := Target{Pkg: rapid.SampledFrom(pkgPool).Draw(t, "pkg"), Name: fmt.Sprintf("t%d", i)}
@@ -62,6 +63,18 @@ func GenWS(t *rapid.T, p Profile) WS {
 				}
 			}
 			if want != "" && !taken {
+				tg.Name = want
+			}
+		}
+		// ... or like its own package (//a/b:b), which has the shorthand spelling //a/b
+		if tg.Pkg != "" && rapid.IntRange(0, 5).Draw(t, "pkg-named") == 0 {
+			want, taken := path.Base(tg.Pkg), false
+			for _, o := range w.Targets {
+				if o.Pkg == tg.Pkg && o.Name == want {
+					taken = true
+				}
+			}
+			if !taken {
 				tg.Name = want
 			}
 		}
